@@ -285,6 +285,14 @@ def run(ctx):
     for r in regexes:
         b.add("RegEx", "delimited", False, "", r, rcells, None, tag="regex")
     b.run()
+    # the hypothesis of C02_int_text_roundtrip: CPython's int() refuses decimal strings of more than 4300 digits
+    for ndigits, inside in ((4300, True), (4301, False)):
+        tag, out = impl_field("Integer", "delimited", False, "", "0...", ".", "", ["9" * ndigits])
+        case = {"type": "Integer", "format": "delimited", "empty": False, "length": "", "rule": "0...", "cell": "<%d nines>" % ndigits, "impl": out if tag == "ok" else tag}
+        ctx.count(key=("int-limit", ndigits), nontrivial=True, branch="int-limit")
+        if tag != "ok" or not out[0].startswith("I"):
+            ctx.violation("C02:Integer:%s" % ("cell-beyond-4300-digits" if not inside else "cell-of-4300-digits"),
+                          "Integer field with rule '0...' rejects the cell '9' * %d although it is an integer literal inside the range" % ndigits, case)
 
 
 def replay(ctx, case):
